@@ -8,7 +8,7 @@ from __future__ import annotations
 
 import ast
 
-from ..core import Ctx, RuleResult, anchor_files, rule
+from ..core import Ctx, RuleResult, anchor_files, anchor_scope, rule
 from ..kit import bind_args, own_nodes
 from ..model import unparse
 
@@ -67,7 +67,7 @@ def misplaced_arguments(ctx: Ctx, files: set[str] | None):
 def _make(prop: str):
     def r_args(ctx: Ctx) -> RuleResult:
         rr = RuleResult(f"R{prop[1:]}.args", "no call passes a value named like one parameter of the callee into a different parameter (crossed-over / misplaced arguments)", min_instances=5)
-        for f, c, t, bad in misplaced_arguments(ctx, anchor_files(prop)):
+        for f, c, t, bad in misplaced_arguments(ctx, anchor_scope(ctx, prop)):
             rr.inst(nontrivial=False)
             if bad:
                 rr.fail(f.qual, f"`{unparse(c)[:90]}` passes `{bad[1]}` as parameter `{bad[0]}` of {t.qual}, which also has a parameter `{bad[1]}` that does not receive it", ctx.loc(f, c))
@@ -114,7 +114,7 @@ def _make_dead(prop: str):
             from ..model import AnalysisError
 
             raise AnalysisError(f"local-binding enumerator finds only {ctx.cache['unread_total']} bindings in the whole package (959 confirmed)")
-        for f, s, name, unread in unread_results(ctx, anchor_files(prop)):
+        for f, s, name, unread in unread_results(ctx, anchor_scope(ctx, prop)):
             rr.inst(nontrivial=False)
             if unread:
                 rr.fail(f.qual, f"`{name} = {unparse(s.value)[:70]}` is never read: whatever is decided next does not depend on it", ctx.loc(f, s))
@@ -221,7 +221,7 @@ def unread_parameters(ctx: Ctx, files: set[str] | None):
 def _make_params(prop: str):
     def r_params(ctx: Ctx) -> RuleResult:
         rr = RuleResult(f"R{prop[1:]}.params", "every parameter of a function is read by it (parse/format callbacks and pattern-character handlers with consumer-fixed signatures excepted)", min_instances=5)
-        for f, name, bad in unread_parameters(ctx, anchor_files(prop)):
+        for f, name, bad in unread_parameters(ctx, anchor_scope(ctx, prop)):
             rr.inst(nontrivial=False)
             if bad:
                 rr.fail(f.qual, f"parameter `{name}` is never read: callers pass a value that has no effect on the result", ctx.loc(f))
@@ -291,7 +291,7 @@ def _make_fields(prop: str):
             from ..model import AnalysisError
 
             raise AnalysisError(f"field store / getter enumerator finds only {ctx.cache['fields_total']} sites in the whole package (423 confirmed)")
-        for f, s, bad in field_name_mismatches(ctx, anchor_files(prop)):
+        for f, s, bad in field_name_mismatches(ctx, anchor_scope(ctx, prop)):
             rr.inst(nontrivial=False)
             if bad:
                 rr.fail(f.qual, bad, ctx.loc(f, s))
@@ -337,7 +337,7 @@ def swallowing_handlers(ctx: Ctx):
 def _make_swallow(prop: str):
     def r_swallow(ctx: Ctx) -> RuleResult:
         rr = RuleResult(f"R{prop[1:]}.swallow", "no exception is converted into an ordinary value: every `except` handler re-raises (two reviewed conversions excepted), no contextlib.suppress", min_instances=1)
-        files = None if prop in ("C08", "C13", "C20") else anchor_files(prop)
+        files = None if prop in ("C08", "C13", "C20") else anchor_scope(ctx, prop)
         rr.inst(nontrivial=False)
         rr.ok({"scope": "whole package" if files is None else "anchor files"})
         for f, h, ty, swallows in swallowing_handlers(ctx):
@@ -359,14 +359,201 @@ for _i in range(1, 21):
     rule(_p)(_make_swallow(_p))
 
 
+# ------------------------------------------------------------------------------------------------ None tests on optional numbers
+
+
+def _optional_scalar(ann: ast.expr | None) -> bool:
+    import re
+
+    if ann is None:
+        return False
+    t = unparse(ann)
+    return bool(re.search(r"\bNone\b", t)) and bool(re.search(r"\b(int|float|str|Decimal)\b", t)) and "Callable" not in t
+
+
+def truthiness_on_optionals(ctx: Ctx, files: set[str] | None):
+    """Parameters / annotated locals of type `int | None` (float, str, Decimal likewise) used as a bare truth value: 0 and "" are values,
+    not absence, so `if year and day_of_year` takes the wrong overload for year 0 (1 BCE).  Sites: every bare-name operand of an
+    if / while / conditional-expression / assert test or of a boolean operator."""
+    for f in sorted(set(ctx.M.func_of_node.values()), key=lambda x: x.qual):
+        if isinstance(f.node, ast.Lambda) or "_compatibility" in f.mod.rel or (files is not None and f.mod.rel not in files):
+            continue
+        ann = {a.arg: a.annotation for a in f.node.args.args + f.node.args.kwonlyargs + f.node.args.posonlyargs}
+        for s in own_nodes(f.node):
+            if isinstance(s, ast.AnnAssign) and isinstance(s.target, ast.Name):
+                ann[s.target.id] = s.annotation
+        names = {k for k, v in ann.items() if _optional_scalar(v)}
+
+        def bare(e: ast.expr):
+            if isinstance(e, ast.BoolOp):
+                for v in e.values:
+                    yield from bare(v)
+            elif isinstance(e, ast.UnaryOp) and isinstance(e.op, ast.Not):
+                yield from bare(e.operand)
+            elif isinstance(e, ast.Name):
+                yield e
+
+        seen: set[int] = set()
+        for s in own_nodes(f.node):
+            tests = []
+            if isinstance(s, (ast.If, ast.While, ast.IfExp, ast.Assert)):
+                tests.append(s.test)
+            if isinstance(s, ast.BoolOp):
+                tests.append(s)
+            for t in tests:
+                for nm in bare(t):
+                    if id(nm) in seen:
+                        continue
+                    seen.add(id(nm))
+                    yield f, t, nm.id, (unparse(ann[nm.id]) if nm.id in names else None)
+
+
+def _make_truthy(prop: str):
+    def r_truthy(ctx: Ctx) -> RuleResult:
+        rr = RuleResult(f"R{prop[1:]}.truthy", "optional numbers / strings are tested with `is None`, never by truth value (0 and \"\" are values)", min_instances=0)
+        if "truthy_total" not in ctx.cache:
+            ctx.cache["truthy_total"] = sum(1 for _ in truthiness_on_optionals(ctx, None))
+        if ctx.cache["truthy_total"] < 50:
+            from ..model import AnalysisError
+
+            raise AnalysisError(f"truth-value enumerator finds only {ctx.cache['truthy_total']} bare-name tests in the whole package (69 confirmed)")
+        for f, t, name, ann in truthiness_on_optionals(ctx, anchor_scope(ctx, prop)):
+            rr.inst(nontrivial=False)
+            if ann is not None:
+                rr.fail(f.qual, f"`{unparse(t)[:80]}` tests `{name}: {ann}` by truth value: the value 0 / \"\" is treated as absent", ctx.loc(f, t))
+            else:
+                rr.ok()
+        return rr
+
+    r_truthy.__name__ = f"r{prop[1:]}_truthy_optionals"
+    return r_truthy
+
+
+for _i in range(1, 21):
+    _p = f"C{_i:02d}"
+    rule(_p)(_make_truthy(_p))
+
+
+# ------------------------------------------------------------------------------------------------ truncated views are not scaled back up
+
+# accessors that return a quantity truncated to a coarser unit than the value holds (nanoseconds)
+TRUNCATED_VIEWS = {"tick_of_day", "tick_of_second", "millisecond", "bcl_compatible_ticks", "to_unix_time_ticks", "to_unix_time_milliseconds", "to_unix_time_seconds"}
+
+
+def scaled_views(ctx: Ctx, files: set[str] | None):
+    """Products `<view> * <X_PER_Y constant>`: scaling a unit count up to a finer unit.  When the view is one of the truncating
+    accessors of a nanosecond-precision value (tick_of_day, tick_of_second, millisecond ...) the product has lost the digits
+    below the view's unit: `tick_of_day * NANOSECONDS_PER_TICK` is not `nanosecond_of_day`."""
+    import re
+
+    for f in sorted(set(ctx.M.func_of_node.values()), key=lambda x: x.qual):
+        if "_compatibility" in f.mod.rel or (files is not None and f.mod.rel not in files):
+            continue
+        nodes = ast.walk(f.node) if isinstance(f.node, ast.Lambda) else own_nodes(f.node)
+        for n in nodes:
+            if isinstance(n, ast.BinOp) and isinstance(n.op, ast.Mult):
+                for a, b in ((n.left, n.right), (n.right, n.left)):
+                    if isinstance(a, ast.Call):
+                        a = a.func
+                    if isinstance(a, ast.Attribute) and re.search(r"_PER_", unparse(b)):
+                        yield f, n, a.attr, a.attr in TRUNCATED_VIEWS
+
+
+def _make_resolution(prop: str):
+    def r_resolution(ctx: Ctx) -> RuleResult:
+        rr = RuleResult(f"R{prop[1:]}.resolution", "no truncating view of a nanosecond-precision value (tick_of_day, tick_of_second, millisecond, unix-time ticks ...) is scaled back up with a unit constant", min_instances=0)
+        if "resolution_total" not in ctx.cache:
+            ctx.cache["resolution_total"] = sum(1 for _ in scaled_views(ctx, None))
+        if ctx.cache["resolution_total"] < 10:
+            from ..model import AnalysisError
+
+            raise AnalysisError(f"unit-scaling enumerator finds only {ctx.cache['resolution_total']} products in the whole package (16 confirmed)")
+        for f, n, attr, bad in scaled_views(ctx, anchor_scope(ctx, prop)):
+            rr.inst(nontrivial=False)
+            if bad:
+                rr.fail(f.qual, f"`{unparse(n)[:90]}`: `{attr}` is already truncated to its unit; scaling it back up drops the finer digits of the value", ctx.loc(f, n))
+            else:
+                rr.ok()
+        return rr
+
+    r_resolution.__name__ = f"r{prop[1:]}_resolution"
+    return r_resolution
+
+
+for _i in range(1, 21):
+    _p = f"C{_i:02d}"
+    rule(_p)(_make_resolution(_p))
+
+
+# ------------------------------------------------------------------------------------------------ stored configuration is used
+
+# name-private attributes that are stored and never read on the pinned tree: (class, attribute) -> reason
+DEADFIELD_REVIEWED = {
+    ("_PyodaFormatInfo", "__offset_date_time_pattern_parser"): "slot for a pattern type that is not ported yet",
+    ("_PyodaFormatInfo", "__offset_time_pattern_parser"): "slot for a pattern type that is not ported yet",
+    ("_PyodaFormatInfo", "__zoned_date_time_pattern_parser"): "slot for a pattern type that is not ported yet",
+    ("_PyodaFormatInfo", "__year_month_pattern_parser"): "slot for a pattern type that is not ported yet",
+    ("TzdbDateTimeZoneSource", "__guesses"): "Windows-zone guesses are not ported; the dictionary is only created",
+}
+
+
+def private_fields(ctx: Ctx, files: set[str] | None):
+    """Name-private attributes (`self.__x`) of each class: stored somewhere in the class, and whether anything in the class reads
+    them (getattr strings included).  A value that is stored and never read was meant to influence something and does not."""
+    for lst in ctx.M.classes.values():
+        for c in lst:
+            if "_compatibility" in c.mod.rel or (files is not None and c.mod.rel not in files):
+                continue
+            stores: dict[str, ast.Attribute] = {}
+            loads: set[str] = set()
+            for n in ast.walk(c.node):
+                if isinstance(n, ast.Attribute) and n.attr.startswith("__") and not n.attr.endswith("__"):
+                    if isinstance(n.ctx, ast.Store):
+                        stores.setdefault(n.attr, n)
+                    else:
+                        loads.add(n.attr)
+                if isinstance(n, ast.Constant) and isinstance(n.value, str):
+                    loads.add(n.value.replace("_" + c.name, ""))
+                if isinstance(n, ast.AugAssign) and isinstance(n.target, ast.Attribute):
+                    loads.add(n.target.attr)
+            for a, n in sorted(stores.items()):
+                yield c, a, n, a not in loads and (c.name, a) not in DEADFIELD_REVIEWED
+
+
+def _make_deadfield(prop: str):
+    def r_deadfield(ctx: Ctx) -> RuleResult:
+        rr = RuleResult(f"R{prop[1:]}.deadfield", "every name-private attribute a class stores is read somewhere in that class (a stored setting that nothing reads has no effect; five reviewed placeholders excepted)", min_instances=0)
+        if "deadfield_total" not in ctx.cache:
+            ctx.cache["deadfield_total"] = sum(1 for _ in private_fields(ctx, None))
+        if ctx.cache["deadfield_total"] < 150:
+            from ..model import AnalysisError
+
+            raise AnalysisError(f"private-attribute enumerator finds only {ctx.cache['deadfield_total']} attributes in the whole package")
+        for c, a, n, bad in private_fields(ctx, anchor_scope(ctx, prop)):
+            rr.inst(nontrivial=False)
+            if bad:
+                rr.fail(c.qual, f"`{a}` is stored but nothing in {c.name} reads it: the setting it carries is ignored", f"{c.mod.rel}:{n.lineno}")
+            else:
+                rr.ok()
+        return rr
+
+    r_deadfield.__name__ = f"r{prop[1:]}_deadfield"
+    return r_deadfield
+
+
+for _i in range(1, 21):
+    _p = f"C{_i:02d}"
+    rule(_p)(_make_deadfield(_p))
+
+
 # ------------------------------------------------------------------------------------------------ rules shared between properties
 
 # A change made to break one property often does so through a mechanism whose home is a neighbouring property; the home rule is then
 # registered for both and reports under its home id.  property -> [(module, rule function)]
 SHARED = {
     "C01": [("c12", "r12_1b_hebrew_compare"), ("c02", "r02_5_leap_decisions"), ("c13", "r13_1_year_cache_keys"), ("c02", "r02_7_hebrew_molad"), ("c02", "r02_8_registry_round_trip")],
-    "C02": [("c13", "r13_1_year_cache_keys"), ("c01", "r01_5_per_year_consistency")],
-    "C03": [("c11", "r11_4_sign_discipline")],
+    "C02": [("c13", "r13_1_year_cache_keys"), ("c01", "r01_5_per_year_consistency"), ("c01", "r01_13_days_since_epoch_uses_hooks")],
+    "C03": [("c11", "r11_4_sign_discipline"), ("c15", "r15_12_timedelta_fields")],
     "C04": [("c02", "r02_5_leap_decisions")],
     "C06": [("c04", "r04_8_queries_are_used"), ("c02", "r02_5_leap_decisions")],
     "C18": [("c12", "r12_2_3_eq_hash_fields")],
@@ -375,7 +562,8 @@ SHARED = {
     "C09": [("c01", "r01_11_trusted_packings")],
     "C11": [("c03", "r03_11_trusted_instants")],
     "C15": [("c03", "r03_11_trusted_instants")],
-    "C07": [("c08", "r08_7_embedded_fields"), ("c17", "r17_8_variable_precision_predicates"), ("c08", "r08_10_field_set_tests")],
+    "C07": [("c08", "r08_7_embedded_fields"), ("c17", "r17_8_variable_precision_predicates"), ("c08", "r08_10_field_set_tests"), ("c17", "r17_7_sign_predicates")],
+    "C05": [("c01", "r01_cfp_calendar_free_productions")],
 }
 
 
